@@ -49,6 +49,28 @@ func shapeText(fset *token.FileSet, n ast.Node, pkgs map[string]bool) string {
 		}
 		return o
 	}
+	// the thing that is indexed or sliced: a field of a local value (msg.TokenIdHex) is the same operand as the
+	// parameter of a helper it was handed to (s): both print as "_"
+	var operand func(e ast.Expr) ast.Expr
+	operand = func(e ast.Expr) ast.Expr {
+		for {
+			s, ok := e.(*ast.SelectorExpr)
+			if !ok {
+				return e
+			}
+			if id, isId := s.X.(*ast.Ident); isId && id.Name == "_" {
+				return id
+			}
+			if _, nested := s.X.(*ast.SelectorExpr); !nested {
+				return e
+			}
+			inner := operand(s.X)
+			if id, isId := inner.(*ast.Ident); isId && id.Name == "_" {
+				return id
+			}
+			return e
+		}
+	}
 	rec = func(e ast.Expr) ast.Expr {
 		switch x := e.(type) {
 		case nil:
@@ -67,9 +89,9 @@ func shapeText(fset *token.FileSet, n ast.Node, pkgs map[string]bool) string {
 			}
 			return &ast.CallExpr{Fun: fun, Args: recList(x.Args), Ellipsis: x.Ellipsis}
 		case *ast.IndexExpr:
-			return &ast.IndexExpr{X: rec(x.X), Index: rec(x.Index)}
+			return &ast.IndexExpr{X: operand(rec(x.X)), Index: rec(x.Index)}
 		case *ast.SliceExpr:
-			return &ast.SliceExpr{X: rec(x.X), Low: rec(x.Low), High: rec(x.High), Max: rec(x.Max), Slice3: x.Slice3}
+			return &ast.SliceExpr{X: operand(rec(x.X)), Low: rec(x.Low), High: rec(x.High), Max: rec(x.Max), Slice3: x.Slice3}
 		case *ast.BinaryExpr:
 			return &ast.BinaryExpr{X: rec(x.X), Op: x.Op, Y: rec(x.Y)}
 		case *ast.UnaryExpr:
